@@ -116,8 +116,9 @@ def lex_texts(judge, texts):
 class Session:
     """one server process; `mute` is set when a request got no answer within TIMEOUT (handler panic)"""
 
-    def __init__(self, exe):
+    def __init__(self, exe, timeout=None):
         self.exe = exe
+        self.timeout = timeout or TIMEOUT
         self.s = lspclient.Server(exe)
         r = self.s.initialize(diagnostics=False)
         caps = (r or {}).get("result", {}).get("capabilities", {})
@@ -141,7 +142,7 @@ class Session:
         if self.mute:
             return "mute"
         try:
-            r = self.s.request(method, params, timeout=TIMEOUT)
+            r = self.s.request(method, params, timeout=self.timeout)
         except queue.Empty:
             r = None
         if r is None:
@@ -165,18 +166,24 @@ class Session:
         self.s.kill()
 
 
-def confirm_mute(exe, text, action, times=3):
-    """True when `action(session, uri)` is answered by silence in `times` fresh processes"""
+def retry_mute(exe, text, action, times=3, timeout=20.0):
+    """`No alarms from timing`: a request that got no answer is repeated in up to `times` fresh processes with a long
+    timeout; returns the first answer, or 'mute' when every one of them stays silent (a genuine handler panic)"""
     for _ in range(times):
-        s = Session(exe)
+        s = Session(exe, timeout=timeout)
         try:
             uri = s.open(text)
             r = action(s, uri)
         finally:
             s.kill()
         if r != "mute":
-            return False
-    return True
+            return r
+    return "mute"
+
+
+def confirm_mute(exe, text, action, times=3):
+    """True when `action(session, uri)` is answered by silence in `times` fresh processes"""
+    return retry_mute(exe, text, action, times) == "mute"
 
 
 # ---------------------------------------------------------------------------------------------
